@@ -153,7 +153,15 @@ var c17Suffixes = []string{"com", "org", "net", "co.uk", "uk", "ck", "www.ck", "
 	"s3.dualstack.us-east-1.amazonaws.com", "app.os.stg.fedoraproject.org", "execute-api.cn-north-1.amazonaws.com.cn"} // long private suffix rules
 
 func genC17Host(t *rapid.T) string {
-	switch rapid.IntRange(0, 11).Draw(t, "hostkind") {
+	switch rapid.IntRange(0, 12).Draw(t, "hostkind") {
+	case 12:
+		// names spelled with hexadecimal digits and dots only: they look like addresses to a character-class test
+		n := rapid.IntRange(1, 3).Draw(t, "hex-labels")
+		var ls []string
+		for i := 0; i < n; i++ {
+			ls = append(ls, pick(t, "hex-label", []string{"abc", "dead", "beef", "face", "a", "b", "0", "1", "cafe", "F00D", "ac", "de"}))
+		}
+		return strings.Join(ls, ".") + "." + pick(t, "hex-suffix", []string{"ac.be", "ac.ae", "bd", "de", "cc", "ac", "be", "ae", "cd", "ee", "ac.cd"})
 	case 10:
 		// host names around the 253-byte limit
 		n := pick(t, "hostlen", []int{250, 252, 253, 254, 255})
